@@ -8,6 +8,8 @@ LEVEL = "proof"
 
 THEOREMS = [
     "Mpc.C07_adder",
+    "Mpc.C07_bridge_plainEval",
+    "Mpc.C07_adder_compute_model",
     "Mpc.C07_sub_partial",
     "Mpc.C07_sub_wide_wrong",
     "Mpc.C07_ucmp",
@@ -23,6 +25,7 @@ THEOREMS = [
     "Mpc.C07_bclr",
     "Mpc.C07_logical",
     "Mpc.C07_bittest",
+    "Mpc.C07_hamming_partial",
     "Mpc.C07_arrayMult_partial_small",
     "Mpc.C07_arrayMult_wide_wrong",
 ]
@@ -113,7 +116,7 @@ def run(ctx):
             # widened search for a concrete failing input: other seeds for the
             # sampled part of the oracle
             for s in range(ctx.seed + 7000, ctx.seed + 7003):
-                ops, out, meta = ctx.run_hx("oracle", 0, seed=s, tag="-widen")
+                ops, out, meta = ctx.run_hx("oracle", 0, seed=s, tag="-widen", extra_args=["-tier", "quick"])
                 ctx.absorb_meta(meta, prefix="widen_")
                 if [f for f in ctx.fails if not ctx.is_known(f)]:
                     break
